@@ -195,13 +195,15 @@ func init() {
 	registerProp(&PropSpec{
 		ID:     "C13",
 		Custom: []string{"partial", "fscan"},
+		Units: []string{modPath + ".(*M).MinifyMimetype", modPath + ".(*M).Match", modPath + ".(*M).Minify", modPath + ".(*M).Bytes", modPath + ".(*M).String"},
 		Partial: []string{
 			modPath + "/json.(*Minifier).Minify", modPath + "/xml.(*Minifier).Minify", modPath + "/svg.(*Minifier).Minify",
 			modPath + "/css.(*Minifier).Minify", modPath + "/html.(*Minifier).Minify", modPath + "/js.(*Minifier).Minify",
+			modPath + ".(*cmdMinifier).Minify",
 		},
-		Units: []string{modPath + ".(*M).MinifyMimetype", modPath + ".(*M).Match", modPath + ".(*M).Minify", modPath + ".(*M).Bytes", modPath + ".(*M).String"},
 		Notes: []string{
 			"(*M).Bytes / String never write the caller's bytes (the reader handed to the minifier exposes no spare capacity; full contracts shared with C10), so calls on the same or adjacent slices share no written location",
+			"a registered command is shared by all calls: (*cmdMinifier).Minify rewrites the $in/$out placeholders in its own copy of the argument list, never in the registered exec.Cmd's array (F42 found and fixed); F scan extended: no function takes the address of a package-level variable or calls a pointer-receiver method on one (allow-list: regexp, sync, log types)",
 			"sequential premise of the standard argument 'no shared location is written after registration => every interleaving equals the sequential run': (1) frame.store obligations (always claimed): no store in any of the six (*Minifier).Minify methods targets the option struct passed in by the user (css/svg/html prove it through their local copy; F7 in html found and fixed); (2) F obligations decided by the generator's may-write analysis: no function of the seven packages stores to a package-level variable outside init(), none iterates over a map on an output path (allow-list: newRenamer builds a set); (3) lock discipline from the registry contracts (C15): MinifyMimetype/Match take the read lock only, released on every exit",
 			"data-race freedom over all interleavings, races inside dependencies, GOMAXPROCS effects and cross-process determinism are NOT decided (no concurrency logic in this technique)",
 			"A-globals: package-level []byte(\"...\") append bases have cap == len, so append never writes through them",
@@ -308,9 +310,10 @@ func init() {
 			modPath + "/html.(*TokenBuffer).read", modPath + "/html.NewTokenBuffer", modPath + "/html.(*TokenBuffer).Peek",
 			modPath + "/html.(*TokenBuffer).Shift", modPath + "/html.(*TokenBuffer).Attributes",
 		},
-		Custom:  []string{"partial"},
+		Custom:  []string{"partial", "tables"},
 		Partial: []string{modPath + "/html.(*Minifier).Minify"},
 		Notes: []string{
+			"the table lemmas of C17 are part of this check as well (attribute and element traits decide which attribute values are written and which tags are dropped)",
 			"html.TokenBuffer (the look-ahead buffer every omission decision reads) under full contract: Peek(i) consumes nothing, keeps every buffered token across reallocation, performs one lexer read per newly buffered token and returns the i-th token of the view or the final error token; Shift hands out the first token; Attributes(hashes...) returns, per requested hash, the matching attribute token of the current start tag or nil, scanning only that tag's attribute tokens - all loops with invariants and variants, every index in range",
 			"site assertions in the real html.(*Minifier).Minify written from the HTML standard: a </p> is omitted only when the next token that is not inter-element whitespace is the end of input, an end tag of a parent that does not keep p open, or the start tag of an element that closes p - never before a comment, inline svg/math, text or template token (the look-ahead loops carry the invariant that no omission was decided yet); </optgroup> only at the end or when no option follows; the value attribute of input is dropped only when it equals the default of the input's type (\"on\" for radio, empty otherwise); text is collapsed/entity-rewritten only outside pre and raw-text elements; a leading space is cut only when omitSpace allows it; KeepQuotes passes the attribute's own quote (C16); embedded resource dispatch (C11); end-of-input obligations (C14); the option struct is not written (C13)",
 			"the trait tables behind these decisions (omitPTag/keepPTag, blockTag/objectTag, boolean and URL attributes, entity maps, attribute defaults) are the C17 table lemmas",
@@ -323,7 +326,8 @@ func init() {
 		Custom:   []string{"partial", "jstables"},
 		Partial: []string{modPath + "/js.isBooleanExpr", modPath + "/js.endsInIf", modPath + "/js.isFalsy", modPath + "/js.mergeBinaryExpr",
 			modPath + "/js.(*jsMinifier).minifyParams", modPath + "/js.(*jsMinifier).minifyExpr",
-			modPath + "/js.isUndefined", modPath + "/js.isUndefinedOrNull", modPath + "/js.toNullishExpr"},
+			modPath + "/js.isUndefined", modPath + "/js.isUndefinedOrNull", modPath + "/js.toNullishExpr",
+			modPath + "/js.hasSideEffects", modPath + "/js.mergeVarDeclExprStmt", modPath + "/js.(*jsMinifier).optimizeCondExpr"},
 		Notes: []string{
 			"operator table lemmas (jstables, exhaustive ground evaluation): every entry of binaryOpPrecMap / binaryLeftPrecMap / binaryRightPrecMap / unaryOpPrecMap / unaryPrecMap of the real js/util.go equals the level the ECMAScript expression grammar gives that operator (reference/js-operators.json), no operator of the grammar is missing (a missing entry reads as the lowest level - F18 found and fixed: the logical assignment operators were missing and a&&=(b,c) lost its parentheses), nothing extra, and the dependency's OpPrec levels are ordered by binding strength",
 			"isBooleanExpr is SOUND (answers true only for expressions that evaluate to a Boolean) and endsInIf is COMPLETE (answers true for every statement whose printed form ends with an else-less if) - postconditions on the real recursive functions, proved branch by branch from ECMAScript facts that are assumed at the site where the code inspects the corresponding node form (`at ... assume [ES ...]`, listed under assumptions); the recursive calls are used through the function's own contract",
